@@ -2,12 +2,14 @@ package main
 
 import (
 	"bytes"
-	"encoding/pem"
 	"crypto/x509"
+	"encoding/asn1"
+	"encoding/pem"
 	"io"
 	"math/rand"
 	"os"
 	"strconv"
+	"time"
 )
 
 func bytesReader(b []byte) io.Reader { return bytes.NewReader(b) }
@@ -40,4 +42,8 @@ func tier() string {
 		return t
 	}
 	return "quick"
+}
+
+func asn1UnmarshalGeneralized(b []byte, t *time.Time) ([]byte, error) {
+	return asn1.UnmarshalWithParams(b, t, "generalized")
 }
